@@ -34,7 +34,14 @@ class VirtualLoop(asyncio.SelectorEventLoop):
         if not self._ready and self._scheduled:
             when = self._scheduled[0]._when
             if when > self._vt:
-                self._vt = round(when, 6)
+                # the clock is kept on a microsecond grid, except when rounding would leave the timer not yet due: with a
+                # large clock value the rounded time can stay short of `when` by more than the clock resolution, asyncio's
+                # `when < now + clock_resolution` test would then never hold and the loop would poll for ever (seen after
+                # ~2e6 virtual seconds in one worker)
+                t = round(when, 6)
+                if not when < t + self._clock_resolution:
+                    t = when
+                self._vt = t
                 self.jumps += 1
                 self._sync()
         super()._run_once()
